@@ -25,5 +25,4 @@ INVARIANT NeverDropped
 PROPERTY SinceSafe
 PROPERTY OffsetMin
 PROPERTY HeadSafe
-PROPERTY HeadCoversFrontier
 CHECK_DEADLOCK FALSE
